@@ -9,9 +9,10 @@ import (
 )
 
 // Mode selects a value class for GenValue.
-//   0 default (nothing set)   1 fully populated, ordinary leaves
-//   2 boundary leaves, set-but-empty sub-messages, optionals set to their zero value
-//   3.. seeded random
+//
+//	0 default (nothing set)   1 fully populated, ordinary leaves
+//	2 boundary leaves, set-but-empty sub-messages, optionals set to their zero value
+//	3.. seeded random
 type genCtx struct {
 	mode  int
 	rnd   *rand.Rand
@@ -142,9 +143,64 @@ func (g *genCtx) wkt(md protoreflect.MessageDescriptor, i int) *dynamicpb.Messag
 		m.Set(md.Fields().ByName("seconds"), protoreflect.ValueOfInt64(sec))
 		m.Set(md.Fields().ByName("nanos"), protoreflect.ValueOfInt32(nanos))
 	case "google.protobuf.Duration":
+		if g.mode == 2 && i%2 == 0 {
+			return m // present and at its default ("0s")
+		}
 		m.Set(md.Fields().ByName("seconds"), protoreflect.ValueOfInt64(int64(90+i)))
+	case "google.protobuf.StringValue":
+		if g.mode != 2 {
+			m.Set(md.Fields().ByName("value"), protoreflect.ValueOfString([]string{"wrapped", "caf\u00e9", "a b"}[i%3]))
+		}
+	case "google.protobuf.Int32Value":
+		if g.mode != 2 {
+			m.Set(md.Fields().ByName("value"), protoreflect.ValueOfInt32(int32(7+i)))
+		}
+	case "google.protobuf.Int64Value":
+		if g.mode != 2 {
+			m.Set(md.Fields().ByName("value"), protoreflect.ValueOfInt64(9007199254740993+int64(i)))
+		}
+	case "google.protobuf.BoolValue":
+		if g.mode != 2 {
+			m.Set(md.Fields().ByName("value"), protoreflect.ValueOfBool(true))
+		}
+	case "google.protobuf.Value":
+		// a Value always has a kind (an empty one has no JSON form): null, a string, a number, a bool in turn
+		switch ((i+g.mode)%4 + 4) % 4 {
+		case 0:
+			m.Set(md.Fields().ByName("null_value"), protoreflect.ValueOfEnum(0))
+		case 1:
+			m.Set(md.Fields().ByName("string_value"), protoreflect.ValueOfString("free"))
+		case 2:
+			m.Set(md.Fields().ByName("number_value"), protoreflect.ValueOfFloat64(2.5))
+		default:
+			m.Set(md.Fields().ByName("bool_value"), protoreflect.ValueOfBool(true))
+		}
+	case "google.protobuf.ListValue":
+		if g.mode != 2 {
+			fd := md.Fields().ByName("values")
+			l := m.Mutable(fd).List()
+			l.Append(protoreflect.ValueOfMessage(g.wkt(fd.Message(), 0))) // null
+			l.Append(protoreflect.ValueOfMessage(g.wkt(fd.Message(), 1)))
+		}
+	case "google.protobuf.Struct":
+		if g.mode != 2 {
+			fd := md.Fields().ByName("fields")
+			mp := m.Mutable(fd).Map()
+			mp.Set(protoreflect.ValueOfString("k").MapKey(), protoreflect.ValueOfMessage(g.wkt(fd.MapValue().Message(), 1)))
+			mp.Set(protoreflect.ValueOfString("nothing").MapKey(), protoreflect.ValueOfMessage(g.wkt(fd.MapValue().Message(), 0)))
+		}
 	}
 	return m
+}
+
+// defaultHasJSONForm: the well-known types whose default value has a proto3 JSON form (a Value
+// without a kind and an Any without a type have none)
+func defaultHasJSONForm(md protoreflect.MessageDescriptor) bool {
+	switch md.FullName() {
+	case "google.protobuf.Value", "google.protobuf.Any":
+		return false
+	}
+	return true
 }
 
 func (g *genCtx) single(fd protoreflect.FieldDescriptor, depth, i int) (protoreflect.Value, bool) {
@@ -276,6 +332,9 @@ func (g *genCtx) sparse(md protoreflect.MessageDescriptor, depth int) *dynamicpb
 		default:
 			if own(fd) {
 				m.Set(fd, protoreflect.ValueOfMessage(g.sparse(fd.Message(), depth+1)))
+			} else if fd.Kind() == protoreflect.MessageKind && (fd.ContainingOneof() == nil || fd.ContainingOneof().IsSynthetic()) && defaultHasJSONForm(fd.Message()) {
+				// a well-known type present and at its default ("1970-01-01T00:00:00Z", "0s", "", 0, {})
+				m.Set(fd, protoreflect.ValueOfMessage(dynamicpb.NewMessage(fd.Message())))
 			}
 		}
 	}
